@@ -1,7 +1,10 @@
 package c09
 
 import (
+	"fmt"
+	"strings"
 	"testing"
+	_ "time/tzdata"
 
 	"go.lstv.dev/util/date"
 
@@ -23,8 +26,43 @@ var coldFirst = map[string]func(){
 	"unmarshalbinary":      func() { var d date.Date; _ = d.UnmarshalBinary([]byte{1, 0, 0, 7, 232, 2, 29}) },
 }
 
+func init() {
+	for _, z := range []string{"Pacific/Apia", "America/Sao_Paulo", "America/Havana", "Asia/Beirut", "America/Asuncion", "Africa/Cairo", "Pacific/Kiritimati", "America/Santiago"} {
+		coldFirst["tz="+z+"; parse extended"] = func() { _, _ = date.DefaultParser("2011-12-30", 0) }
+	}
+	// the first parse of the process happens under another limit than the later ones
+	for _, lim := range []int{8, 9, 0, 13} {
+		lim := lim
+		coldFirst[fmt.Sprintf("first parse under MaxInputLength %d", lim)] = func() {
+			defer setLimit(lim)()
+			_, _ = date.DefaultParser("20240229", 0)
+		}
+	}
+}
+
 func TestColdStart(t *testing.T) {
 	vkit.ColdMain(t, "C09", coldFirst, func(w *vkit.W) {
+		if strings.HasPrefix(vkit.ColdScenario(), "tz=") {
+			for _, y := range []int{1994, 2011, 2013, 2014, 2018, 2019} {
+				for m := 1; m <= 12; m++ {
+					for d := 1; d <= 31; d++ {
+						judge(Case{Text: vkit.B(fmt.Sprintf("%04d-%02d-%02d", y, m, d)), Limit: 10}, w)
+						judge(Case{Text: vkit.B(fmt.Sprintf("%04d%02d%02d", y, m, d)), Limit: 10}, w)
+					}
+				}
+			}
+		}
+		if strings.HasPrefix(vkit.ColdScenario(), "first parse under") {
+			for _, lim := range []int{0, 15, 17, 10, 8} {
+				restore := setLimit(lim)
+				for _, text := range []string{"12345-01-01", "123456-12-31", "1234567-02-28", "12345678-02-29", "123456789-12-31", "1234567890-01-01", "123450101", "1234567890101", "2024-02-29", "20240229"} {
+					for _, rule := range []int{0, int(date.RuleDisableBasic)} {
+						judge(Case{Text: vkit.B(text), Rule: rule, Limit: lim}, w)
+					}
+				}
+				restore()
+			}
+		}
 		for _, text := range []string{"2024-02-29", "20240229", "2023-02-29", "20230229", "0000-01-01", "9999-12-31", "10000-01-01", "2024-13-01", "2024-00-10", "2024-1-01", "2024-01-1", "202-01-01", "2024-0101", "202401-01", "", "x", "2024-02-29 ", " 2024-02-29", "2024-02-30", "1900-02-29", "2000-02-29", "２０２４-02-29"} {
 			for _, rule := range []int{0, int(date.RuleDisableBasic)} {
 				judge(Case{Text: vkit.B(text), Rule: rule, Limit: 10}, w)
